@@ -46,6 +46,7 @@ def run(ctx):
                "storage backend: the MockStorage fixture behind a counting wrapper (known fixture findings of C09 apply)",
                "MockProvider flavours are the environment; virtual clock; ageing 0")
     ctx.model_check("SysMC", "MC_SysMC.cfg", "design: contract guards", workers=4)
+    sc.run_exemplars(ctx, CLAUSES, extra_sig=xsig, accept=accept)
     quick = ctx.tier == "quick"
     flavors = ["oid/oid", "path/oidf"] if quick else ["oid/oid", "path/oidf", "oidf/path", "path/path"]
     fams = [("rs_one2", [1], 2, None, 700 if quick else None), ("rs_oneR2", [2], 2, None, 400 if quick else None),
